@@ -13,7 +13,7 @@ for spec in sys.argv[4:]:
         comment = ''
         if '|' in nm:
             nm, comment = nm.split('|', 1)
-        m = re.search(r'^(?:Theorem|Lemma|Example)\s+' + re.escape(nm) + r'\b(.*?)\n\s*Proof\.', src, re.S | re.M)
+        m = re.search(r'^(?:Theorem|Lemma|Example|Corollary)\s+' + re.escape(nm) + r'\b(.*?)\n\s*Proof\.', src, re.S | re.M)
         if not m:
             sys.exit(f'theorem {nm} not found in {rel}')
         stmt = m.group(1).rstrip()
@@ -21,6 +21,6 @@ for spec in sys.argv[4:]:
             sys.exit(f'cannot delimit statement of {nm}')
         if comment:
             out.append('(* ' + comment + ' *)')
-        out.append(f'Theorem {cid}_{nm}{stmt}\nProof. exact {nm}. Qed.\nPrint Assumptions {cid}_{nm}.\n')
+        out.append(f'Theorem {cid}_{nm}{stmt}\nProof. first [exact {nm} | apply {nm}]. Qed.\nPrint Assumptions {cid}_{nm}.\n')
 open(os.path.join(V, 'coq', 'theories', 'Properties', cid + '.v'), 'w').write('\n'.join(out))
 print('wrote', cid)
